@@ -15,3 +15,8 @@ reg("C19", "types", level="proof")
 
 # C12 Character classes evaluate as sets
 reg("C12", "mustuse")
+
+# C07 Compilation is total
+reg("C07", "recguard")
+reg("C07", "recguard", fn="check_limits")
+reg("C07", "panics", fn="check_compile")
